@@ -366,6 +366,9 @@ macro_rules! dbg {
 #[macro_use]
 mod rt;
 
+#[cfg(feature = "verif-hooks")]
+pub use crate::rt::verif;
+
 pub use rt::{explore, skip_branch, stop_exploring};
 // Expose for documentation purposes.
 pub use rt::MAX_THREADS;
